@@ -92,6 +92,39 @@ def str_assign(rel, pattern):
         raise KeyError("pattern %r not found in %s" % (pattern, rel))
     return c_string_bytes(m.group(1))
 
+def function_text(rel, name):
+    """normalised text of the definition of a static function (comments and white space removed)"""
+    src = cdefs.strip_comments(cdefs.read(rel))
+    m = re.search(r"\n" + re.escape(name) + r"\s*\([^;{]*\)\s*\{", src)
+    if not m:
+        raise KeyError("definition of %s not found in %s" % (name, rel))
+    end = src.find("\n}", m.end())
+    if end < 0:
+        raise KeyError("end of %s not found in %s" % (name, rel))
+    return re.sub(r"\s+", "", src[m.start():end + 2])
+
+def check_twin_functions():
+    """CodecDefs.v models the two encoders by ONE Gallina function instantiated twice; that is sound only
+    while the C functions are identical up to LBYTES, the line encoder and the literal strings"""
+    def norm(t, which):
+        t = t.replace("la_b64_encode", "ENC").replace("uu_encode", "ENC")
+        t = t.replace("b64encode", "X").replace("uuencode", "X")
+        t = t.replace('"begin-base64', '"begin')
+        t = t.replace('"====\\n"', "TRAILER").replace('"`\\nend\\n"', "TRAILER")
+        return t
+    for fn in ("_options", "_open", "_write", "_close"):
+        a = norm(function_text(WB64, "archive_filter_b64encode" + fn), 0)
+        b = norm(function_text(WUU, "archive_filter_uuencode" + fn), 1)
+        if a != b:
+            k = next((i for i in range(min(len(a), len(b))) if a[i] != b[i]), min(len(a), len(b)))
+            raise ValueError("archive_filter_b64encode%s and archive_filter_uuencode%s are no longer the same code "
+                             "(first difference near '%s' / '%s'); the shared model enc_write/enc_close of "
+                             "coq/Codec/CodecDefs.v has to be split" % (fn, fn, a[max(0, k - 30):k + 30], b[max(0, k - 30):k + 30]))
+    a = norm(function_text(WB64, "atol8"), 0)
+    b = norm(function_text(WUU, "atol8"), 1)
+    if a != b:
+        raise ValueError("the two atol8 copies differ")
+
 def coq_list(vals, per=16):
     rows = []
     for i in range(0, len(vals), per):
@@ -99,6 +132,7 @@ def coq_list(vals, per=16):
     return "[" + ";\n   ".join(rows) + "]%N"
 
 def generate():
+    check_twin_functions()
     L = [cdefs.coq_header("translators/gen_codec.py", [WB64, WUU, RUU]),
          "From Coq Require Import List ZArith NArith.\nImport ListNotations.\n"]
     def nat(name, v):
